@@ -2196,6 +2196,39 @@ impl ConfigState {
             }
         }
 
+        // same (address, fingerprint) on both sides but another content (names,
+        // chain, key, versions): add_certificate keeps an existing fingerprint
+        // as it is, so the old entry is removed first
+        for &(address, fingerprint) in my_certificates.intersection(&their_certificates) {
+            let mine = self
+                .certificates
+                .get(&address)
+                .and_then(|certs| certs.get(fingerprint));
+            let theirs = other
+                .certificates
+                .get(&address)
+                .and_then(|certs| certs.get(fingerprint));
+            if let (Some(mine), Some(theirs)) = (mine, theirs) {
+                if mine != theirs {
+                    v.push(
+                        RequestType::RemoveCertificate(RemoveCertificate {
+                            address: SocketAddress::from(address),
+                            fingerprint: fingerprint.to_string(),
+                        })
+                        .into(),
+                    );
+                    v.push(
+                        RequestType::AddCertificate(AddCertificate {
+                            address: SocketAddress::from(address),
+                            certificate: theirs.clone(),
+                            expired_at: None,
+                        })
+                        .into(),
+                    );
+                }
+            }
+        }
+
         for address in added_tcp_listeners {
             let listener = &other.tcp_listeners[*address];
             if listener.active {
